@@ -36,6 +36,21 @@ CHECKS["C08"] = dict(
     design_ref="5/C08",
 )
 
+CHECKS["C04"] = dict(
+    category="proof",
+    text="Shape.rotate_translate_local, occupancy_shape_from_state (exact branch, incl. point-mass heading), the initial-occupancy invariant of obstacles, occupancy_at_time / state_at_time of static, dynamic (trajectory, set-based, no prediction), phantom and environment obstacles for a symbolic integer time step (before / at / inside / after the horizon), and the scenario-level queries (occupancies_at_time_step per role, obstacle_states_at_time_step, obstacles_by_role_and_type, obstacles_by_position_intervals) are executed symbolically from the real source; the four-way case split of the property is the postcondition, discharged by z3 for all time steps and coordinates. Trajectory / occupancy-set lengths are fixed small (2-3).",
+    note="uncertain-state enclosure (region / angle-interval states) is NOT decided deductively (trigonometric inclusion) - not covered by this check; Polygon.rotate_translate_local (shapely centroid rotation) is outside the model; floats are reals; list lengths fixed small",
+    technique="deductive: AST symbolic execution of real source + sidecar contracts, VCs discharged by z3",
+    design_ref="5/C04",
+)
+CHECKS["C11"] = dict(
+    category="proof",
+    text="Histories query -> public mutator -> query are executed symbolically on the real source for every cache/mutator pair the property lists that the model reaches: TrajectoryPrediction.occupancy_set vs translate_rotate / trajectory / shape setters (also through DynamicObstacle), DynamicObstacle occupancy/state vs prediction setter / update_prediction / update_initial_state / translate_rotate, update_initial_state history bookkeeping (history lengths 0-3 x max 1,2,5), TrafficLightCycle / TrafficLight state vs cycle_elements / time_offset / cycle replacement, Lanelet polygon and distance vs translate_rotate. Postcondition: the second answer equals the answer of an object freshly built from the current primary data; discharged by z3 for all values.",
+    note="one mutator per history (the inductive argument: each mutator re-establishes cache coherence, which is what each contract proves from a populated cache); LaneletNetwork spatial index (STRtree) coherence is covered under C06, not here; in-place mutation of exposed lists is outside any method contract; floats are reals",
+    technique="deductive: AST symbolic execution of real source over operation histories + sidecar contracts, VCs discharged by z3",
+    design_ref="5/C11",
+)
+
 NOT_YET = {}
 
 def main():
